@@ -158,8 +158,36 @@ def _executed(fn) -> bool:
         and ast.unparse(rets[0].value.left) in ("self.id", "self.id_") and ast.unparse(rets[0].value.comparators[0]) == ps[1]
 
 
+def _conf_values(fn) -> bool:
+    ps = _params(fn)
+    return len(ps) == 2 and ps[0] == "self" and any((ast.unparse(c.func)).endswith("asdict") for c in _calls(fn)) \
+        and "Dict" in _ann(fn.returns)
+
+
+def _activation_pred(fn) -> bool:
+    ps = _params(fn)
+    return len(ps) == 2 and len(fn.args.args) == 2 and _ann(fn.args.args[0].annotation) == "ExecNode" and _ann(fn.returns) == "bool" \
+        and ".active" in ast.unparse(fn)
+
+
+def _copy_nodes(fn) -> bool:
+    ps = _params(fn)
+    return len(ps) == 1 and len(fn.args.args) == 1 and "ExecNode" in _ann(fn.args.args[0].annotation) and "ExecNode" in _ann(fn.returns) \
+        and any(ast.unparse(c.func) == "copy" for c in _calls(fn)) and ".setup" in ast.unparse(fn)
+
+
+def _bind_args(fn) -> bool:
+    ps = _params(fn)
+    return fn.args.vararg is not None and len(ps) == 2 and len(fn.args.args) == 2 and "UsageExecNode" in _ann(fn.args.args[1].annotation) \
+        and "StrictDict" in _ann(fn.returns)
+
+
 # (usual name, class or None for module level, predicate)
 ROLES: List[Tuple[str, Optional[str], Callable]] = [
+    ("_conf_to_values", "ExecNode", _conf_values),
+    ("_xn_active_in_call", None, _activation_pred),
+    ("copy_non_setup_xns", None, _copy_nodes),
+    ("extend_results_with_args", None, _bind_args),
     ("executed", "ExecNode", _executed),
     ("_pre_setup", "BaseDAG", _pre_setup),
     ("include_debug_nodes", "DiGraphEx", _include_debug),
@@ -254,15 +282,41 @@ def _defs(trees: Dict[str, ast.Module], cls: Optional[str]):
                             yield mod, n
 
 
+def fingerprint(fn) -> str:
+    import hashlib
+
+    return hashlib.sha1((ast.dump(fn.args) + "|" + "".join(ast.dump(x) for x in fn.body) + "|" + type(fn).__name__).encode()).hexdigest()[:16]
+
+
 def canonical_roles(trees: Dict[str, ast.Module]) -> Dict[str, str]:
     """Rewrites the trees in place; returns {usual name: actual name} for everything that was found under another name."""
+    from .known_names import BODY_FINGERPRINT, KNOWN_FUNCTIONS
+
     mapping: Dict[str, str] = {}
     usual = {c for c, _, _ in ROLES}
+    # 0. a function with an unknown name and the literal parameters and body of a known function that is absent: a pure rename
+    present = set()
+    unknown = []
+    for t in trees.values():
+        for n in ast.walk(t):
+            if isinstance(n, (ast.FunctionDef, ast.AsyncFunctionDef)):
+                present.add(n.name)
+                if n.name not in KNOWN_FUNCTIONS:
+                    unknown.append(n)
+    for n in unknown:
+        orig = BODY_FINGERPRINT.get(fingerprint(n))
+        if orig is not None and orig not in present and orig not in mapping and n.name not in mapping.values():
+            mapping[orig] = n.name
     for canon, cls, pred in ROLES:
         defs = list(_defs(trees, cls))
-        if any(fn.name == canon for _, fn in defs):
+        if any(fn.name == canon for _, fn in defs) or canon in mapping:
             continue
-        cands = [fn for _, fn in defs if pred(fn) and fn.name not in usual]
+        def _safe(fn_):
+            try:
+                return pred(fn_)
+            except (IndexError, AttributeError):
+                return False
+        cands = [fn for _, fn in defs if _safe(fn) and fn.name not in usual]
         if len(cands) != 1:
             continue
         mapping[canon] = cands[0].name
@@ -295,3 +349,71 @@ def canonical_roles(trees: Dict[str, ast.Module]) -> Dict[str, str]:
             elif isinstance(n, ast.arg) and n.arg in inv:
                 n.arg = inv[n.arg]
     return mapping
+
+
+ACTIVATION_SRC = '''
+def _xn_active_in_call(xn: ExecNode, results: Dict[Identifier, Any]) -> bool:
+    if xn.active is None:
+        return True
+    return bool(xn.active.result(results))
+'''
+
+
+def outline_activation(trees: Dict[str, ast.Module]) -> int:
+    """When the activation predicate has been written in place (`X.active is None or bool(X.active.result(R))`, or its
+    negation normal form) and no function of that name exists, the expression is read as a call of the predicate, whose usual
+    definition is added to the module: the rules meet the form they know."""
+    if any(isinstance(n, (ast.FunctionDef, ast.AsyncFunctionDef)) and n.name == "_xn_active_in_call" for t in trees.values() for n in ast.walk(t)):
+        return 0
+
+    def match(e: ast.AST):
+        if isinstance(e, ast.BoolOp) and isinstance(e.op, ast.Or) and len(e.values) == 2:
+            a, b = e.values
+            if isinstance(a, ast.Compare) and len(a.ops) == 1 and isinstance(a.ops[0], ast.Is) and isinstance(a.left, ast.Attribute) \
+                    and a.left.attr == "active" and isinstance(a.comparators[0], ast.Constant) and a.comparators[0].value is None:
+                x = a.left.value
+                if isinstance(b, ast.Call) and isinstance(b.func, ast.Name) and b.func.id == "bool" and len(b.args) == 1:
+                    b = b.args[0]
+                if isinstance(b, ast.Call) and isinstance(b.func, ast.Attribute) and b.func.attr == "result" and len(b.args) == 1 \
+                        and isinstance(b.func.value, ast.Attribute) and b.func.value.attr == "active" \
+                        and ast.dump(b.func.value.value) == ast.dump(x):
+                    return x, b.args[0]
+        return None
+
+    count = 0
+    for name, t in trees.items():
+        hit = False
+
+        class _O(ast.NodeTransformer):
+            def visit_BoolOp(self, node: ast.BoolOp):
+                nonlocal count, hit
+                self.generic_visit(node)
+                m = match(node)
+                neg = False
+                if m is None and isinstance(node.op, ast.And) and len(node.values) == 2:
+                    from .loader import _neg
+
+                    m = match(_neg(node))
+                    neg = m is not None
+                if m is None:
+                    return node
+                count += 1
+                hit = True
+                call = ast.Call(func=ast.Name(id="_xn_active_in_call", ctx=ast.Load()), args=[m[0], m[1]], keywords=[])
+                out = ast.UnaryOp(op=ast.Not(), operand=call) if neg else call
+                return ast.copy_location(out, node)
+
+        _O().visit(t)
+        if hit:
+            fn = ast.parse(ACTIVATION_SRC).body[0]
+            last_import = max([i for i, st in enumerate(t.body) if isinstance(st, (ast.Import, ast.ImportFrom))] + [-1])
+            ast.copy_location(fn, t.body[last_import] if last_import >= 0 else t.body[0])
+            for sub in ast.walk(fn):
+                if hasattr(sub, "lineno") or isinstance(sub, (ast.expr, ast.stmt)):
+                    sub.lineno = getattr(t.body[max(last_import, 0)], "lineno", 1)  # type: ignore[attr-defined]
+                    sub.end_lineno = sub.lineno  # type: ignore[attr-defined]
+                    sub.col_offset = 0  # type: ignore[attr-defined]
+                    sub.end_col_offset = 0  # type: ignore[attr-defined]
+            t.body.insert(last_import + 1, fn)
+            ast.fix_missing_locations(t)
+    return count
